@@ -149,6 +149,18 @@ theorem C20_registered_all_running (ts ts' : List Th) (s : St) (hr : Reach (sys 
     (hst : s.stopped = false) (hrun : s.running = true) : ∀ i, i ∈ s.regl → (s.objs i).flag = true :=
   (inv3_reach hr).2.allflag hst hrun
 
+/-- **A worker's context is only ever cancelled by a shutdown**: in every reachable state a cancelled worker implies
+that the stopped flag is set and the `stopOnce` body has been entered (no spontaneous cancellation, e.g. by a
+re-registration or a clean-up). -/
+theorem C20_cancel_only_by_shutdown (ts ts' : List Th) (s : St) (hr : Reach (sys true true) (init, ts) (s, ts'))
+    (i : Nat) (hi : i < s.n) (hc : (s.objs i).cancelled = true) : s.stopped = true ∧ s.sd ≠ .idle := by
+  have hA := (inv_reach hr).1
+  have hst : s.stopped = true := by
+    cases h : s.stopped with
+    | true => rfl
+    | false => have := hA.nocancel h i hi; rw [hc] at this; cases this
+  exact ⟨hst, (hA.stopped_iff.mp hst).1⟩
+
 /-- **The replacement branch of `BackgroundWorker` is dead code**: in every reachable state of a running, not stopped
 daemon a call for a name that is in the registry is refused with `ErrExistingBackgroundWorkerStillRunning`; the branch
 "existing worker is no longer running → `removeWorkerFromShutdownOrder`, register again" is never taken (a finished
@@ -277,6 +289,12 @@ example :
     let s := (runSched (sys true true) (init, demoPool) (demoSchedule.take 8)).1
     s.stopped = false ∧ s.running = true ∧ s.cleared = false ∧ findName s 1 = some 0 ∧ busy s 0 = true ∧
       (runningList s).map (fun i => ((s.objs i).name, (s.objs i).order)) = [(3, -2), (2, 5), (1, 5)] := by
+  decide +kernel
+
+/-- … and of `C20_cancel_only_by_shutdown`: after 18 steps of `demoSchedule` worker 0 is cancelled. -/
+example :
+    let s := (runSched (sys true true) (init, demoPool) (demoSchedule.take 18)).1
+    0 < s.n ∧ (s.objs 0).cancelled = true := by
   decide +kernel
 
 /-! ## Regenerated tie: the synchronisation skeletons the protocol model was written against
